@@ -306,18 +306,21 @@ Fixpoint sx_Ns (l : list sx) : option (list N) :=
   | _ => None
   end.
 
-(* large bodies are written in cases as (n seed): n bytes, byte i = (seed + 7 i + i/256) mod 256 *)
-Fixpoint pattern (n : nat) (i seed : N) : bytes :=
+(* large bodies are written in cases as (n seed): n bytes, byte i = (seed + 7 i + i/256) mod 256;
+   built from the last byte backwards (tail recursive: the extracted code must not recurse
+   deeply while allocating) *)
+Fixpoint pattern_acc (n : nat) (i seed : N) (acc : bytes) : bytes :=
   match n with
-  | O => []
-  | S n' => ((seed + 7 * i + i / 256) mod 256) :: pattern n' (i + 1) seed
+  | O => acc
+  | S n' => let j := i - 1 in pattern_acc n' j seed (((seed + 7 * j + j / 256) mod 256) :: acc)
   end.
+Definition pattern (n : nat) (seed : N) : bytes := pattern_acc n (N.of_nat n) seed [].
 
 Definition sx_tag (x : sx) : option tag :=
   match x with
   | SL [SZ ty; SZ ts; SB b] => Some (mk_tag (Z.to_N ty) (Z.to_N ts) b)
   | SL [SZ ty; SZ ts; SL [SZ n; SZ seed]] =>
-      Some (mk_tag (Z.to_N ty) (Z.to_N ts) (pattern (Z.to_nat n) 0 (Z.to_N seed)))
+      Some (mk_tag (Z.to_N ty) (Z.to_N ts) (pattern (Z.to_nat n) (Z.to_N seed)))
   | _ => None
   end.
 Fixpoint sx_tags (l : list sx) : option (list tag) :=
